@@ -215,6 +215,9 @@ def server_cfg(c):
     # host-key types the server advertises but never presents: it closes the probe connection instead of answering
     for t in c.get('withheld', ()):
         cfg['hostkeys'].pop(t, None)
+    # further fake-server settings of the case (e.g. debug_kinds: SSH_MSG_DEBUG messages in front of probe replies)
+    for k, v in (c.get('server_opts') or {}).items():
+        cfg[k] = v
     # host-key blobs given byte for byte (malformed ones: the probe fails and nothing is measured for that type)
     for t, blob in (c.get('raw_hostkeys') or {}).items():
         cfg['hostkeys'][t] = blob
